@@ -79,7 +79,7 @@ type c07Witness struct {
 func init() {
 	core.Register(&core.Check{
 		ID:   "C07",
-		Rule: "exhaustive over: operation security in 11 shapes (absent, [], [{}], single, conjunction, alternatives, undeclared scheme, mixes) x document security in 6 shapes x 4 callback outcome assignments (A,B ok/fail) x parameter layout (none / operation overrides path-level query q with another type / operation declares q in another location) x renderings good/bad/absent of path-level q (query), path-level X-H (header, required), operation r (query, required) x body good/bad/absent x body required or not x 9 option sets (default, MultiError, ExcludeRequestBody, ExcludeRequestQueryParams, both excludes+MultiError, body-reading callback, no AuthenticationFunc, body streamed from a reader of unknown length with ContentLength 0 and -1). One Options value per option set serves all requests of a group, is first used on a body-less operation of the same path and must come back unchanged from every call. The model is boolean: each part has an independently controlled rendering. Then PRNG-drawn operations (1,500 quick / 150,000 thorough, 8 requests each): up to 3 requirements over 4 declared schemes (apiKey header/query, http bearer, oauth2 with scopes) and an undeclared one at document and operation level, integer parameters p,q in query/header/cookie and the path variable at path level, pattern-typed ones at operation level (overrides by (in,name), decoys in other locations), renderings 5 / x / XX / absent per parameter, body good/bad/absent, independent callback outcome per scheme, random combinations of MultiError, ExcludeRequestBody, ExcludeRequestQueryParams, body-reading callback, no AuthenticationFunc; same boolean model. Sequences over one loaded document: a path item with three parameters in every order, GET overriding one or two of them, 0/1/3 GET validations first, then every rendering of the three parameters on the sibling POST and PUT operations (boolean model; the document's paths must be unchanged afterwards). Faults: a request body whose reader fails before its end (nothing / a complete value / half a value arrived) under 4 security shapes x required or not x MultiError x body-reading callback: never accepted. Distinct = full case tuple; non-trivial = the model value depends on at least two parts (at least two of security/params/body are constrained).",
+		Rule: "exhaustive over: operation security in 11 shapes (absent, [], [{}], single, conjunction, alternatives, undeclared scheme, mixes) x document security in 6 shapes x 4 callback outcome assignments (A,B ok/fail) x parameter layout (none / operation overrides path-level query q with another type / operation declares q in another location) x renderings good/bad/absent of path-level q (query), path-level X-H (header, required), operation r (query, required) x body good/bad/absent x body required or not x 9 option sets (default, MultiError, ExcludeRequestBody, ExcludeRequestQueryParams, both excludes+MultiError, body-reading callback, no AuthenticationFunc, body streamed from a reader of unknown length with ContentLength 0 and -1). One Options value per option set serves all requests of a group, is first used on a body-less operation of the same path and must come back unchanged from every call. The model is boolean: each part has an independently controlled rendering. Then PRNG-drawn operations (1,500 quick / 150,000 thorough, 8 requests each): up to 3 requirements over 4 declared schemes (apiKey header/query, http bearer, oauth2 with scopes) and an undeclared one at document and operation level, integer parameters p,q in query/header/cookie and the path variable at path level, pattern-typed ones at operation level (overrides by (in,name), decoys in other locations), renderings 5 / x / XX / absent per parameter, body good/bad/absent, independent callback outcome per scheme, random combinations of MultiError, ExcludeRequestBody, ExcludeRequestQueryParams, body-reading callback, no AuthenticationFunc; same boolean model. Sequences over one loaded document: a path item with three parameters in every order, GET overriding one or two of them, 0/1/3 GET validations first, then every rendering of the three parameters on the sibling POST and PUT operations (boolean model; the document's paths must be unchanged afterwards). Faults: a request body whose reader fails before its end (nothing / a complete value / half a value arrived) under 4 security shapes x required or not x MultiError x body-reading callback: never accepted. Distinct = full case tuple; non-trivial = the model value depends on at least two parts (at least two of security/params/body are constrained). The body-reading callback verifies the body it is shown against the body sent (every call), also under ExcludeRequestBody.",
 		Assumptions: []string{
 			"reference: requirements = operation's if declared else document's; empty list or empty requirement passes; a requirement passes iff all its schemes are declared and accepted; effective parameters = operation's + path-level ones not overridden by (in,name)",
 			"in MultiError mode each failing part yields one member identifiable as security / parameter(in,name) / body",
